@@ -109,4 +109,17 @@ theorem hist_sound {Γ : Ctx} :
         exact holdsAlong_final m.body [] _ (run ho)
       · exact he
 
+/-- the freshly initialised object (`wuffs_foo__bar__initialize`: all zero) respects the
+declared types when zero is a value of every declared type — what `checkFields`
+("default zero value is not within bounds") and `bcheckVar` enforce -/
+theorem envOk_zero {Γ : Ctx} (hz : ∀ n, inType (Γ n) 0) : EnvOk Γ (fun _ => 0) :=
+  fun key => hz key.name
+
+/-- `hist_sound` from the freshly initialised object -/
+theorem hist_sound_fresh {Γ : Ctx} (hz : ∀ n, inType (Γ n) 0)
+    (hist : List (Method × List Int))
+    (hall : ∀ c ∈ hist, MethodOk Γ c.1 ∧ argsNat c.1.params c.2) :
+    HistSafe Γ ⟨fun _ => 0, false⟩ hist :=
+  hist_sound hist _ (envOk_zero hz) hall
+
 end WuffsVerif.Proof.WCoreHist
